@@ -133,9 +133,10 @@ def padTo16 (s : List Nat) : List Nat :=
 def weightChannels (c : Cfg) (off len core : Nat) : List Nat :=
   pySliceIdx c.fullDepth (off + core) (off + len) c.ncores
 
-/-- channels of `biases[off + core : off + core + len : ncores]` -/
+/-- channels of `biases[off : off + len][core :: ncores]` (slice the depth slice, then every
+    `ncores`-th entry from `core`): indices `off + core + k·ncores < min (off + len) (len biases)` -/
 def scaleChannels (c : Cfg) (off len core : Nat) : List Nat :=
-  pySliceIdx c.biases.length (off + core) (off + core + len) c.ncores
+  pySliceIdx c.biases.length (off + core) (off + len) c.ncores
 
 /-- the `for j, core_bias in enumerate(core_biases)` loop: `chs` are the bias indices,
     `schs` the indices selected from `quantised_scales` (shorter → IndexError) -/
@@ -160,7 +161,7 @@ def encodeCore (c : Cfg) (idx off len core : Nat) (st : St) : Except Err St :=
   let offset := st.stream.length
   let sch := scaleChannels c off len core
   let wch := if c.doWeights then weightChannels c off len core else []
-  match scaleRecords c sch (pySliceIdx c.scales.length (off + core) (off + core + len) c.ncores) with
+  match scaleRecords c sch (pySliceIdx c.scales.length (off + core) (off + len) c.ncores) with
   | .error e => .error e
   | .ok ss =>
     let s1 := padTo16 (st.stream ++ ss)
@@ -279,6 +280,7 @@ def createDmaOp (ncores : Nat) (rs : List Range) (srcAddr dstAddr depth : Nat) :
 
 structure Req where
   -- fields that enter the keys
+  ifmBits : Nat                      -- op.inputs[0].dtype.size_in_bits()
   blockType : Nat
   blockDepthClamped : Nat            -- min(ofm_block.depth, weights.shape[-1])
   depthHash : Int
@@ -288,8 +290,7 @@ structure Req where
   ifmScale : Nat                     -- the doubles as bit patterns
   ofmScale : Nat
   -- fields that do not
-  accelerator : Nat                  -- ublock depths, ncores
-  ifmBits : Nat
+  accelerator : Nat                  -- ublock depths, ncores; constant while a cache lives (cleared per compilation)
   opFlip : Bool                      -- op.type == Conv2DBackpropInputSwitchedBias
   depthOffsets : List Nat            -- only its hash is in the key
   blockDepth : Nat                   -- only the clamped value is in the key
@@ -303,6 +304,7 @@ structure WccKey where
   depthHash : Int
   dilation : Nat × Nat
   weightValueId : Nat
+  ifmBits : Nat
 deriving Repr, DecidableEq
 
 structure SccKey where
@@ -311,7 +313,7 @@ structure SccKey where
   ofmScale : Nat
 deriving Repr, DecidableEq
 
-def wccKey (r : Req) : WccKey := ⟨r.blockType, r.blockDepthClamped, r.depthHash, r.dilation, r.weightValueId⟩
+def wccKey (r : Req) : WccKey := ⟨r.blockType, r.blockDepthClamped, r.depthHash, r.dilation, r.weightValueId, r.ifmBits⟩
 def sccKey (r : Req) : SccKey := ⟨r.scaleValueId, r.ifmScale, r.ofmScale⟩
 
 /-- names of the non-key request fields in which two requests differ -/
